@@ -198,23 +198,26 @@ static void inform_hunks_failed(std::ostream& out, const char* reason, const std
 }
 
 // A file of our own making (the rejects, the empty backup of a file which did not exist) takes the place of whatever
-// has its name. A symbolic link is not written through to some file which has nothing to do with the patch.
-static void remove_symbolic_link(const std::string& path)
+// has its name: it is neither written through a symbolic link nor into a file which has other names as well, either
+// of which may be some file which has nothing to do with the patch.
+static void make_way_for(const std::string& path)
 {
-    if (filesystem::is_symlink(path) && std::remove(path.c_str()) != 0)
-        throw std::system_error(errno, std::generic_category(), "Unable to remove symbolic link " + path);
+    if ((filesystem::is_symlink(path) || filesystem::is_regular_file(path)) && std::remove(path.c_str()) != 0)
+        throw std::system_error(errno, std::generic_category(), "Unable to remove " + path);
 }
 
 // The rejects of a file which already got some from an earlier patch of the input (or those of every file
 // if they all are to go to the one file given) are added to what is there, only the first ones replace it.
 class RejectFiles {
 public:
-    std::ios_base::openmode open_mode_for(const std::string& reject_file)
+    std::ios_base::openmode open_mode_for(const Options& options, const std::string& reject_file)
     {
         if (!m_written_reject_files.emplace(reject_file).second)
             return std::ios::app;
 
-        remove_symbolic_link(reject_file);
+        // NOTE: a file which we were told to write the rejects to is whatever it is (/dev/stderr is a symbolic link).
+        if (options.reject_file_path.empty())
+            make_way_for(reject_file);
         return std::ios::trunc;
     }
 
@@ -232,7 +235,7 @@ static void refuse_to_patch(std::ostream& out, std::ios_base::openmode mode, con
         const auto reject_file = reject_path(options, output_file);
         out << " -- saving rejects to file " << reject_file;
         ensure_parent_directories(reject_file);
-        File file(reject_file, mode | reject_files.open_mode_for(reject_file));
+        File file(reject_file, mode | reject_files.open_mode_for(options, reject_file));
 
         RejectWriter reject_writer(patch, file, options.reject_format);
         for (const auto& hunk : patch.hunks)
@@ -379,7 +382,7 @@ public:
             if (filesystem::exists(file_path))
                 filesystem::rename(file_path, backup_file);
             else {
-                remove_symbolic_link(backup_file);
+                make_way_for(backup_file);
                 File::touch(backup_file);
             }
         }
@@ -726,7 +729,7 @@ int process_patch(const Options& options)
 
                 // The file being patched may be on its way to a directory which does not exist yet.
                 ensure_parent_directories(reject_file);
-                File file(reject_file, mode | reject_files.open_mode_for(reject_file));
+                File file(reject_file, mode | reject_files.open_mode_for(options, reject_file));
                 tmp_reject_file.write_entire_contents_to(file);
             }
             out << '\n';
